@@ -27,7 +27,8 @@ REQUIRED = {'domain': 500, 'budget': 500, 'prefix': 500, 'stop-m-iff': 500,
     'counter-m': 1000, 'counter-nswp': 1000, 'wellformed-on-interrupt': 1000,
     'stop-reason': 1000, 'none-stop': 200, 'no-eval-after-stop': 200,
     'cb-stop': 40, 'threshold-stop': 40, 'nswp-zero': 40, 'reject-before-eval': 100, 'pattern-run': 100,
-    'cache-once': 200, 'counter-cache': 200}
+    'cache-once': 200, 'counter-cache': 200, 'history-info-reuse': 200,
+    'history-cache-reuse': 200}
 REQUIRED_EVENTS = {'interrupt-ltr-first': 5, 'interrupt-ltr-middle': 5,
     'interrupt-ltr-last': 5, 'interrupt-rtl-first': 5,
     'interrupt-rtl-middle': 5, 'interrupt-rtl-last': 5,
@@ -268,6 +269,82 @@ def run_case(case, ctx):
         c = classify_position(ctx, run, d, 'none')
         if c and c[0]:
             ctx.nontrivial([conf, 'none', c[1]])
+
+    # ---- (h) histories: the caller's dictionaries reused over several calls
+    # (h1) one info dictionary for a budgeted run and then an unbudgeted one
+    shared = {}
+    mb = int(cum[min(K - 1, max(0, K // 3))])
+    kwa = dict(base, nswp=nswp, m=mb, info=shared)
+    if use_cache:
+        kwa['cache'] = {}
+    runA = crossh.execute(crossh.Run(T), Y0, **kwa)
+    okA = judge_common(ctx, runA, n, kwa, 'history: budgeted run')
+    kwb = dict(base, nswp=nswp, info=shared)
+    if use_cache:
+        kwb['cache'] = {}
+    runB = crossh.execute(crossh.Run(T), Y0, **kwb)
+    if okA and \
+            judge_common(ctx, runB, n, kwb, 'history: unbudgeted run reusing '
+            'the info dictionary of a budgeted one'):
+        ctx.check('history-info-reuse', same_batches(runB.batches,
+            refrun.batches) and runB.info['stop'] == refrun.info['stop']
+            and runB.info['nswp'] == refrun.info['nswp'], lambda: 'a run '
+            'without budget that reuses the info dictionary of an earlier '
+            f'budgeted run (m = {mb}) differs from the same run with a fresh '
+            f'dictionary: stop {runB.info["stop"]!r}/{refrun.info["stop"]!r}, '
+            f'sweeps {runB.info["nswp"]}/{refrun.info["nswp"]}, evaluated '
+            f'{runB.evaluated}/{refrun.evaluated}')
+    # (h2) the same two runs with the info argument left out altogether
+    kwa2 = {k: v for k, v in kwa.items() if k != 'info'}
+    kwb2 = {k: v for k, v in kwb.items() if k != 'info'}
+    if use_cache:
+        kwa2['cache'], kwb2['cache'] = {}, {}
+    crossh.execute(crossh.Run(T), Y0, pass_info=False, **kwa2)
+    runD = crossh.execute(crossh.Run(T), Y0, pass_info=False, **kwb2)
+    if runD.error is None:
+        ctx.check('history-info-reuse', same_batches(runD.batches,
+            refrun.batches), lambda: 'a run without budget and without info '
+            'argument, after a budgeted run without info argument, requests '
+            f'{runD.evaluated} indices instead of {refrun.evaluated}')
+    elif not isinstance(runD.error, crossh.Abort):
+        raise runD.error
+    # (h3) a cache that is not empty at entry: filled by an earlier run of
+    # the same problem, or seeded by the caller with true values
+    if use_cache:
+        for how in ('earlier-run', 'seeded'):
+            cch = {}
+            if how == 'earlier-run':
+                crossh.execute(crossh.Run(T), Y0, **dict(base, nswp=1,
+                    cache=cch))
+            else:
+                for _ in range(int(rng.integers(1, 8))):
+                    ix = tuple(int(rng.integers(0, k)) for k in n)
+                    cch[ix] = float(T[ix])
+            before = set(cch.keys())
+            for kwc in (dict(base, nswp=nswp, cache=cch),
+                    dict(base, nswp=nswp, m=max(1, M // 2), cache=dict(cch))):
+                before = set(kwc['cache'].keys())
+                runC = crossh.execute(crossh.Run(T), Y0, **kwc)
+                lab = f'history: cache with {len(before)} entries at entry ' \
+                    f'({how})'
+                if not judge_common(ctx, runC, n, kwc, lab):
+                    continue
+                rows = {tuple(int(x) for x in r_) for b in runC.batches
+                    for r_ in b}
+                ctx.check('history-cache-reuse', not (rows & before),
+                    f'{lab}: {len(rows & before)} indices that were already '
+                    'in the cache were evaluated again')
+                ctx.check('history-cache-reuse', set(kwc['cache'].keys()) ==
+                    before | rows, f'{lab}: cache keys afterwards are not '
+                    'the old keys plus the evaluated indices')
+                if 'm' not in kwc and 'conv' not in (runC.info['stop'],
+                        refrun.info['stop']):
+                    # (the cache-specific stop "conv" may fire earlier when
+                    # more requests are answered from the cache)
+                    ctx.check('history-cache-reuse', crossh_same(runC.result,
+                        refrun.result) and runC.info['nswp'] ==
+                        refrun.info['nswp'], f'{lab}: result / sweep count '
+                        'differ from the run with an empty cache')
 
     # ---- (c) callback returns True at sweep s
     for s in range(1, len(refrun.sweeps) + 1):
